@@ -6,24 +6,32 @@ LEVEL = "model_checking"
 
 MANIFEST = dict(
     level="model_checking",
-    text="TLC checks SupplyEqualsEquity (recorded total supply = sum of all holders' equity, nothing negative), NothingForbiddenIncluded and the "
-         "action properties OnlyOwnEquityDecreases, SupplyChangesOnlyByIssuerOrHolder, FrozenDoesNotMove on the ledger model for all sequences of "
-         "issue / replenish (by the issuer and by a holder, amounts -5, 0, 50), transfer-asset (4 senders incl. non-holders, to holders, to self, "
-         "to the zero address = destroy, amounts negative, 0, 1, all, all+1, 2^256) and freeze / unfreeze; every transition is executed on real "
-         "nodes (real signed transactions whose data JSON carries the exact decimal strings, real BlockAssembler block after every step, second "
-         "real node through DPoVP.InsertBlock) and TLC validates the REAL total supply and every holder's equity at every block against the "
-         "recomputation from the packaged transactions, supply = sum of equities, and that no forbidden transaction was packaged.",
-    note="One divisible, replenishable token asset (category 1) created and issued (100 to a1, 100 to a2) in stable setup blocks; scenario blocks "
-         "are not stabilised, so equity received inside the scenario cannot be re-sent (the processor demands the holder's asset id in the stable "
-         "state). Categories 2 / 3 and indivisible assets are not covered. Known defect carried as deviations Dev_NegativeAssetTransfer "
-         "(accepted negative amount), Dev_NegativeAssetTransferSplitsMinerValidator (a discarded one makes the miner seal a block the validator "
-         "refuses) and, before /repo 8a7f309, Dev_NegativeAssetTransferPanics / Dev_AssetToFailingContractPanics (node panic); proposed fix: reject "
-         "amount.Sign() < 0 first in EVM.TransferAssetTx.",
-    technique="TLA+ model checking (Ledger.tla over LedgerOps.tla) + replay of the TLC state graph and simulated behaviours on real nodes "
+    text="TLC checks SupplyEqualsEquity (per asset code the recorded total supply = sum of all holders' equity under the code's asset ids - "
+         "for an indivisible asset the number of ids still held -, nothing negative), NothingForbiddenIncluded and the action properties "
+         "OnlyOwnEquityDecreases, SupplyChangesOnlyByIssuerOrHolder, FrozenDoesNotMove on the ledger model for all sequences of issue / "
+         "replenish (by the issuer and by a holder, amounts -5, 0, 50; replenish also under an id of another code), transfer-asset (senders "
+         "incl. non-holders, to holders, to self, to the zero address = destroy, to contracts that accept / fail / SELF-DESTRUCT when the "
+         "transfer runs their code or in a later LEMO call; amounts negative, 0, 1, all, all+1, 2^256) and freeze / unfreeze, over assets of ALL "
+         "THREE categories: token (id = code), non-fungible (indivisible, one id per issue transaction, moves as a whole), common (several ids per "
+         "code, divisible, replenishable or not), one of them frozen from the start, ids created by issue transactions of the scenario; every "
+         "transition is executed on real nodes (real signed transactions whose data JSON carries the exact decimal strings and asset code / id "
+         "hashes, real BlockAssembler block after every step, second real node through DPoVP.InsertBlock) and TLC validates the REAL total "
+         "supply / freeze flag of every code and every holder's equity under every id at every block against the recomputation from the "
+         "packaged transactions, supply = equity per code, and that no forbidden transaction was packaged.",
+    note="Four assets of one issuer created and issued in stable setup blocks (T: category 1; N: category 2 with ids N1, N2; C: category 3 "
+         "with ids C1, C2; G: category 3, not replenishable, frozen by the setup chain, id G1) plus up to three ids created inside a scenario; "
+         "scenario blocks are not stabilised, so only the receivers of the setup chain's issue transactions can send an id (the processor "
+         "demands the id's metadata in the sender's stable account; a transfer never hands it on). The design run also shows that a freeze "
+         "flag looked up under the asset id (mutant Mut_FreezeLookupById) violates FrozenDoesNotMove and that a self-destruction wiping the "
+         "contract's equity (Mut_SuicideClearsEquity) violates SupplyEqualsEquity. Known defect (fixed in /repo e9d4b18, baf6473) kept as "
+         "deviations Dev_NegativeAssetTransfer* / Dev_AssetToFailingContractPanics.",
+    technique="TLA+ model checking (Ledger.tla over LedgerOps.tla) + replay of the TLC state graphs and simulated behaviours on real nodes "
               "(adapter ledger) + TLC trace validation (TraceLedger.tla, Check = C12)")
 
 
 def run(ctx):
     ledger_common.run(ctx, "C12", exhaustive=dict(quick="c12_quick", thorough="c12_thorough"),
-                      negatives=[("c12_neg", ["OnlyOwnEquityDecreases", "SupplyChangesOnlyByIssuerOrHolder"])], sim="c12_sim",
-                      sim_quick=150, sim_thorough=3000, depth=9)
+                      negatives=[("c12_neg", ["OnlyOwnEquityDecreases", "SupplyChangesOnlyByIssuerOrHolder"]),
+                                 ("c12_negfrz", ["FrozenDoesNotMove"]), ("c12_negsd", ["SupplyEqualsEquity", "OnlyOwnEquityDecreases", "FrozenDoesNotMove"])], sim="c12_sim",
+                      sim_quick=150, sim_thorough=3000, depth=9,
+                      more=[dict(name="cat", quick="c12_cat", thorough="c12_cat_thorough")])
